@@ -820,23 +820,26 @@ Definition c18_run := hist_run c18_ok.
    Acknowledgements and SUBACK/UNSUBACK in the stream switch the rule off: whether they are in
    order is C13's business. *)
 Definition benign_stream (ps : list packet) : bool :=
-  forallb (fun p => match p with PPublish _ _ _ _ _ _ | PPubrel _ | PPingresp => true | _ => false end) ps.
-Definition no_false_reset (t : list tev) : bool :=
+  forallb (fun p => match p with
+                    | PPublish _ q _ _ id _ => (q =? 0) || match id with Some i => negb (i =? 0) | None => false end
+                    | PPubrel id => negb (id =? 0)
+                    | PPingresp => true
+                    | _ => false end) ps.
+Definition no_false_reset (h : histcase) (t : list tev) : bool :=
   forallb (fun e => match e with
     | TRet i OpRead (RetErr er) _ _ _ =>
       if has_bit er 16384 then
         let n := conn_count (upto_call i t) in
         if n =? 0 then true else
-        let bs := in_bytes (n - 1) t in
-        match firstn 4 bs with
-        | [32; 2; _; 0] =>
+        let c := n - 1 in
+        let bs := in_bytes c t in
+        if connack_accepts (firstn 4 bs) (want_clean_of h t c) then
           let '(ps, tail) := packets_of (skipn 4 bs) in
           negb (benign_stream ps && (len tail =? 0))
-        | _ => true
-        end
+        else true
       else true
     | _ => true end) t.
-Definition c04_full (h : histcase) : bool := c04_ok h && no_false_reset (trace_of h).
+Definition c04_full (h : histcase) : bool := c04_ok h && no_false_reset h (trace_of h).
 Definition c04_run_full (l : list histcase) : list N * list N * list (N * N) :=
   (idx_filter hist_agree l 0, idx_filter c04_full l 0, idx_known25 l 0).
 Definition all2_ok (h : histcase) : bool := all_ok h && c05_ok h && c17_ok h && c18_ok h.
@@ -1029,7 +1032,8 @@ Definition adopt_step (lenient : bool) (t : list tev) (st : bool * bool) (m : li
     let warn_ok := if fst st then true else (if fatal =? 0 then nwarn =? 0 else true) in
     (* records abandoned by an adoption stay in the Persistence and are reported again: the
        no-warning clause is for a Persistence that was never tampered with *)
-    (st, fatal_ok && warn_ok)
+    (* an adoption that took the whole Persistence without a word makes it the client's own again *)
+    ((if (nwarn =? 0) && (fatal =? 0) then false else fst st, snd st), fatal_ok && warn_ok)
   | TRet i OpRead (RetErr er) _ _ _ =>
     (* C16: after an adoption, connecting never fails on the session's own records ("gone missing",
        "record unavailable" are class-less errors), except when the client identifier record is unusable (F15) *)
@@ -1063,7 +1067,7 @@ Definition c05_run_full := hist_run c05_full.
 Fixpoint idx_known (f : histcase -> bool) (ok : histcase -> bool) (l : list histcase) (i : N) (tag : N) : list (N * N) :=
   match l with
   | [] => []
-  | x :: r => if negb (ok x && hist_agree x) && f x then (i, tag) :: idx_known f ok r (i + 1) tag else idx_known f ok r (i + 1) tag
+  | x :: r => if negb (ok x) && f x then (i, tag) :: idx_known f ok r (i + 1) tag else idx_known f ok r (i + 1) tag
   end.
 Definition c16_run (l : list histcase) : list N * list N * list (N * N) :=
   (idx_filter hist_agree l 0, idx_filter c16_ok l 0, idx_known (fun h => c16_gen true h && f15_match h) c16_ok l 0 15).
@@ -1079,12 +1083,31 @@ Definition call_failed (t : list tev) (i : N) : bool :=
                     | TRet j _ (RetErr er) _ _ _ => (j =? i) && negb (er =? 0)
                     | TRet j _ (RetAdopt n f) _ _ _ => (j =? i) && (negb (n =? 0) || negb (f =? 0))
                     | _ => false end) t.
+(* "for every storage sequence number" at the session level: what the client saves carries a
+   sequence number above every decodable record the Persistence holds at that moment (the order
+   of the records is what a restart reads them in), whatever the numbers adopted were *)
+Definition seq_of (v : list N) : option N :=
+  match decode_value v with DecOk _ sq => Some sq | _ => None end.
+Definition seq_step (dirty : bool) (m : list (N * list N)) (e : tev) : bool * bool :=
+  (* dirty: the environment rewrote the Persistence and the client has not adopted it since *)
+  match e with
+  | TStore _ _ => (true, true)
+  | TRet _ (OpAdopt _ _) (RetAdopt _ 0) _ _ _ => (false, true)
+  | TEv _ (QSave k v) ADone =>
+    (dirty, dirty ||
+            match seq_of v with
+            | Some sq => forallb (fun kv => (fst kv =? k) || match seq_of (snd kv) with Some s0 => s0 <? sq | None => true end) m
+            | None => false
+            end)
+  | _ => (dirty, true)
+  end.
 Definition c15s_ok (h : histcase) : bool :=
   let t := trace_of h in
   no_panic t &&
   forallb (fun e => match e with
                     | TEv i (QLoad k) (AVal (Some v)) => genuine_rec v || call_failed t i
-                    | _ => true end) t.
+                    | _ => true end) t
+  && fold_trace seq_step false [] t.
 Definition c15s_run := hist_run c15s_ok.
 
 (* ------------------------------------------------------------------ *)
@@ -1155,9 +1178,24 @@ Definition disconnect_last (t : list tev) : bool :=
                       existsb (fun c => match last_out_packet t c with Some PDisconnect => true | _ => false end) (conns t)
                     | _ => true end) t.
 
+(* "no connection is left behind": when ReadSlices reports ErrClosed, every connection this client
+   instance dialed (since the last successful adoption) has been closed.  State: the number of the
+   first connection of the current instance. *)
+Definition conns_closed_at_end (t : list tev) : bool :=
+  fold_trace (fun (s : N) (m : list (N * list N)) (e : tev) =>
+    match e with
+    | TRet i (OpAdopt _ _) (RetAdopt _ 0) _ _ _ => (conn_count (upto_call i t), true)
+    | TRet i OpRead (RetErr er) _ _ _ =>
+      if has_bit er 2 then
+        let before := upto_call i t in
+        (s, forallb (fun c => (c <? s) || closed_conn before c) (upto (N.to_nat (conn_count before))))
+      else (s, true)
+    | _ => (s, true)
+    end) 0 [] t.
 Definition c12_gen (lenient : bool) (h : histcase) : bool :=
   let t := trace_of h in
-  no_panic t && disconnect_last t && fold_trace (cl_step lenient t) (mkCl false false [] false 0) [] t.
+  no_panic t && disconnect_last t && fold_trace (cl_step lenient t) (mkCl false false [] false 0) [] t
+  && conns_closed_at_end t.
 Definition c12_ok := c12_gen false.
 Definition c12_run (l : list histcase) : list N * list N * list (N * N) :=
   (idx_filter hist_agree l 0, idx_filter c12_ok l 0, idx_known (c12_gen true) c12_ok l 0 23).
@@ -1214,7 +1252,10 @@ Definition rd_step (h : histcase) (t : list tev) (s : rd10) (m : list (N * list 
 
 Definition c10_ok (h : histcase) : bool :=
   let t := trace_of h in
-  no_panic t && fold_trace (rd_step h t) (mkRd true false [] 0 false) [] t.
+  no_panic t && fold_trace (rd_step h t) (mkRd true false [] 0 false) [] t
+  (* "serves requests again": the new connection's well-formed stream is not answered with a reset
+     (state left over from the lost connection must not be applied to the new one) *)
+  && no_false_reset h t.
 Definition c10_run := hist_run c10_ok.
 
 (* ------------------------------------------------------------------ *)
@@ -1320,3 +1361,30 @@ Definition c11_run (l : list histcase) : list N * list N * list (N * N) :=
   (idx_filter hist_agree l 0, idx_filter c11_ok l 0, idx_known (c11_gen true) c11_ok l 0 26).
 Definition all4_ok (h : histcase) : bool := all3_ok h && c10_ok h && c11_ok h && c12_gen true h.
 Definition all4_run := hist_run all4_ok.
+
+(* ------------------------------------------------------------------ *)
+(* C06 at the session level (runner C06S): inbound streams through the whole client, with
+   Persistence faults at the reception markers and connection faults in between.  Whatever
+   happens, the stream stays aligned: nothing is returned that the broker did not send, a
+   well-formed stream is not answered with a protocol reset, and on each connection no at-most-once
+   or at-least-once PUBLISH that lies before a returned one was skipped. *)
+Definition big_returned (t : list tev) (tp : list N) (size : N) : bool :=
+  existsb (fun e => match e with
+                    | TRet _ OpRead (RetBig tp' sz) _ _ _ => list_eqb tp' tp && (sz =? size)
+                    | _ => false end) t.
+Definition no_loss (t : list tev) : bool :=
+  forallb (fun c =>
+    let ins := fst (packets_of (in_bytes c t)) in
+    let dl := delivered_msgs t in
+    let passed := firstn (last_delivered ins dl 0 0) ins in
+    forallb (fun p => match p with
+                      | PPublish _ q _ tp _ pl =>
+                        if q <? 2 then existsb (fun d => list_eqb (fst d) tp && list_eqb (snd d) pl) dl
+                                       || big_returned t tp (len pl)
+                        else true
+                      | _ => true end) passed) (conns t).
+Definition c06s_ok (h : histcase) : bool :=
+  let t := trace_of h in
+  no_panic t && no_forged_delivery t && no_false_reset h t && no_loss t.
+Definition c06s_run := hist_run c06s_ok.
+
